@@ -8,6 +8,7 @@
 From Hy Require Import model.C05_Frag.
 From Hy Require Import model.C09_ACL proof.C09_ACL model.C08_Adapter proof.C08_Adapter.
 From Hy Require Import model.C08_UDPPolicy proof.C08_UDPPolicy model.C08_Feed proof.C08_Feed proof.C08_FeedC05.
+From Hy Require Import model.C08_Raw proof.C08_Raw.
 From Coq Require Import NArith List.
 Import ListNotations.
 
@@ -243,3 +244,49 @@ Theorem C08_adapter_hostport_only_refuted :
     fst (adapter_check_udp_hostport ip_str_hex rs dflt h p) <> fst (adapter_udp ip_str_hex rs dflt resolve h p).
 Proof. exact hostport_only_refuted. Qed.
 Print Assumptions C08_adapter_hostport_only_refuted.
+
+(* ---- composition with C05: the input hypothesis (wf_input / fwf: "a client datagram never carries the empty address")
+   discharged from C05's model of protocol.ParseUDPMessage (C05_Frag.parse).  model/C08_Raw.v: a session is driven by RAW
+   datagram bytes; udpIOImpl.ReceiveMessage parses each one and skips (`continue`) what ParseUDPMessage rejects; what it
+   accepts goes to udpSessionEntry.Feed.  Addresses are Go strings (list byte), the empty address is "". ---- *)
+
+(* ParseUDPMessage never delivers a message with an empty address: for every byte string. *)
+Theorem C08_parsed_address_nonempty : forall b m, C05_Frag.parse b = Ok m -> C05_Frag.addr m <> [].
+Proof. exact parse_addr_nonempty. Qed.
+Print Assumptions C08_parsed_address_nonempty.
+
+(* Hence, with NO hypothesis on the inputs: for every policy, every hook, every sequence of raw client datagrams (any bytes:
+   truncated, zero-length address, over-long address, fragments in any order with any addresses), socket reads and closes,
+   with any dial faults, eviction choices and write errors - nothing is ever handed to WriteTo for a destination the policy
+   rejects. *)
+Theorem C08_raw_denied_never_written :
+  forall (P : list byte -> bool) (hook : list byte -> hookres (list byte)) rs fs os x,
+  frun (list byte) str_eqb [] P hook None (feed_inputs rs) = (fs, os) -> P x = false ->
+  forall o, In o os -> ~ In x (written (list byte) o).
+Proof. exact raw_denied_never_written. Qed.
+Print Assumptions C08_raw_denied_never_written.
+
+(* ... and after any such history, for the next raw datagram that parses (as message m): the address given to checkAddr is
+   the address given to WriteTo, it is the address field of that very datagram, and the policy allows it; a dropped datagram
+   was dropped for that same address; an overridden session does not consult CheckUDP; one WriteTo at most. *)
+Theorem C08_raw_check_is_write :
+  forall (P : list byte -> bool) (hook : list byte -> hookres (list byte)) rs fs os b m fault ev werr fs' o,
+  frun (list byte) str_eqb [] P hook None (feed_inputs rs) = (fs, os) -> C05_Frag.parse b = Ok m ->
+  fstep (list byte) str_eqb [] P hook fs (FMsg _ (umsg_of m) fault ev werr) = (fs', o) ->
+  match fo_out _ o with
+  | FWrite _ (Some c) x ok => c = x /\ x = C05_Frag.addr m /\ P x = true /\ ok = negb werr
+  | FWrite _ None x ok => P x = true /\ ok = negb werr /\ fo_consulted _ o = false
+  | FDrop _ c => c = C05_Frag.addr m /\ P c = false
+  | FRep _ _ => False
+  | _ => True
+  end.
+Proof. exact raw_check_is_write. Qed.
+Print Assumptions C08_raw_check_is_write.
+
+(* Non-vacuity: "a:53" allowed, "b:53" rejected; between the two a datagram with lAddr = 0 and a truncated one. *)
+Theorem C08_raw_example :
+  map (fo_out (list byte))
+      (snd (frun (list byte) str_eqb [] (fun a => str_eqb a ex_a) (fun _ => HKeep) None (feed_inputs ex_raws)))
+  = [ FWrite _ (Some ex_a) ex_a true; FDrop _ ex_b ].
+Proof. exact raw_example. Qed.
+Print Assumptions C08_raw_example.
